@@ -203,6 +203,11 @@ type TableConfig struct {
 //   - *Table: 创建的表格对象
 //   - error: 如果配置无效则返回错误
 func (d *Document) CreateTable(config *TableConfig) (*Table, error) {
+	if config == nil {
+		Error("表格配置不能为空")
+		return nil, NewValidationError("TableConfig", "", "表格配置不能为空")
+	}
+
 	if config.Rows <= 0 || config.Cols <= 0 {
 		Error("表格行数和列数必须大于0")
 		return nil, NewValidationError("TableConfig", "", "表格行数和列数必须大于0")
@@ -2824,6 +2829,11 @@ func (t *Table) AddNestedTable(row, col int, config *TableConfig) (*Table, error
 	cell, err := t.GetCell(row, col)
 	if err != nil {
 		return nil, err
+	}
+
+	if config == nil {
+		Error("嵌套表格配置不能为空")
+		return nil, NewValidationError("TableConfig", "", "嵌套表格配置不能为空")
 	}
 
 	if config.Rows <= 0 || config.Cols <= 0 {
